@@ -186,6 +186,25 @@ func sampleValue(tn string, k int) reflect.Value {
 	panic("no sample for " + tn)
 }
 
+// valueOfKind varies the representation of a value of the named type: 0 the sample, 1 the zero value of the static
+// type (nil slice / map / pointer / interface, 0, ""), 2 an allocated but empty container (the sample for types that
+// have none).
+func valueOfKind(tn string, k int, kind int) reflect.Value {
+	t := typeByName(tn)
+	switch kind {
+	case 1:
+		return reflect.Zero(t)
+	case 2:
+		switch t.Kind() {
+		case reflect.Slice:
+			return reflect.MakeSlice(t, 0, 0)
+		case reflect.Map:
+			return reflect.MakeMap(t)
+		}
+	}
+	return sampleValue(tn, k)
+}
+
 func safely(f func()) (p any) {
 	defer func() {
 		if e := recover(); e != nil {
@@ -211,6 +230,7 @@ func runPair(c pairCase) string {
 	calls := 0
 	var seenArgs []reflect.Value
 	returnErr := c.ReturnErr
+	valKind := 0
 	handler := reflect.MakeFunc(ft, func(args []reflect.Value) []reflect.Value {
 		calls++
 		seenArgs = args
@@ -238,7 +258,7 @@ func runPair(c pairCase) string {
 					res[i] = reflect.Zero(out[i])
 				}
 			default:
-				res[i] = sampleValue(rn, 7+i)
+				res[i] = valueOfKind(rn, 7+i, valKind)
 			}
 		}
 		return res
@@ -316,14 +336,26 @@ func runPair(c pairCase) string {
 	}
 
 	// ---- calls with every argument count
-	for k := 0; k <= 4; k++ {
+	for kk := 0; kk <= 6; kk++ {
+		// every argument count; the declared count three times, with sample values, zero values (nil containers and
+		// pointers) and empty containers as arguments and as the handler's result
+		k := kk
+		valKind = 0
+		if kk > 4 {
+			k, valKind = len(in), kk-4
+		}
 		args := make([]any, k)
 		for i := 0; i < k; i++ {
 			tn := "int64"
 			if i < len(c.Params) {
 				tn = c.Params[i]
 			}
-			args[i] = sampleValue(tn, i).Interface()
+			av := valueOfKind(tn, i, valKind)
+			if k := av.Kind(); (k == reflect.Interface || k == reflect.Pointer) && av.IsNil() {
+				// nil is no value of the any and pattern schemas: outside "arguments of the declared types"
+				av = sampleValue(tn, i)
+			}
+			args[i] = av.Interface()
 		}
 		calls = 0
 		seenArgs = nil
@@ -363,7 +395,8 @@ func runPair(c pairCase) string {
 			return fmt.Sprintf("Call on %s with the declared arguments failed: %v", ft, cerr)
 		}
 		if hasVal {
-			want := sampleValue(c.Results[0], 7).Interface()
+			want := valueOfKind(c.Results[0], 7, valKind).Interface()
+			ev.Class(fmt.Sprintf("result_representation:%d", valKind), 1)
 			if !reflect.DeepEqual(res, want) && !(c.Results[0] == "*regexp.Regexp" && res != nil && res.(*regexp.Regexp).String() == want.(*regexp.Regexp).String()) {
 				return fmt.Sprintf("Call on %s returned %#v, handler returned %#v", ft, res, want)
 			}
